@@ -185,6 +185,10 @@ func c18Gen(t *rapid.T) C18Case {
 		`sum by (tier) (bytes_over_time({}[5s]))`,
 		`max by (container, tier) (count_over_time({}[3s]))`,
 		`topk(2, sum by (container, tier) (count_over_time({}[5s])))`,
+		// range aggregations with their own grouping clause over two labels
+		`max_over_time({} | pattern "<method> <path> <code>" | unwrap code [5s]) by (tier, env)`,
+		`min_over_time({} | pattern "<method> <path> <code>" | unwrap code [3s]) by (container, tier, env)`,
+		`sum by (tier) (max_over_time({} | pattern "<method> <path> <code>" | unwrap code [5s]) without (msg, method, path, code, container_id))`,
 		`sum by (tier, env) (count_over_time({}[5s])) / sum by (tier, env) (bytes_over_time({}[5s]))`,
 		`count_over_time({}[2s]) + count_over_time({}[2s])`,
 		`sum by (tier, env) (count_over_time({}[5s])) or sum by (tier, env) (count_over_time({tier="web"}[5s]))`,
